@@ -33,16 +33,38 @@ Calls == { [n |-> n, kws |-> kws, star |-> st, hasss |-> h, ss |-> ss] :
             n \in 0..3, kws \in SUBSET AllKw, st \in -1..2, h \in BOOLEAN, ss \in SUBSET AllKw }
 ValidCall(c) == (~c.hasss => c.ss = {}) /\ Cardinality(c.kws) <= 3 /\ Cardinality(c.ss) <= 2
 
-\* the two spaces as sequences in a canonical order (the order carries no meaning; it only makes
-\* the indexes the harness samples by, and replay files, stable from run to run)
+\* The two spaces as sequences, built by decoding an index (the order carries no meaning; it only
+\* makes the indexes the harness samples by, and replay files, stable from run to run).
 KwBit(n) == CASE n = "a" -> 1 [] n = "b" -> 2 [] n = "k1" -> 4 [] n = "k2" -> 8 [] n = "z" -> 16
-Mask(ns) == FoldLeft(LAMBDA acc, n : acc + KwBit(n), 0, SetToSeq(ns))
-KwoCode(kwo) == IF Len(kwo) = 0 THEN 0 ELSE IF Len(kwo) = 1 THEN (IF kwo[1].d THEN 2 ELSE 1)
-                ELSE 3 + (IF kwo[1].d THEN 2 ELSE 0) + (IF kwo[2].d THEN 1 ELSE 0)
-SigCode(s) == ((((s.npos * 3 + s.ndef) * 2 + (IF s.va THEN 1 ELSE 0)) * 7 + KwoCode(s.kwo)) * 2) + (IF s.vk THEN 1 ELSE 0)
-CallCode(c) == (((c.n * 4 + (c.star + 1)) * 32 + Mask(c.kws)) * 2 + (IF c.hasss THEN 1 ELSE 0)) * 32 + Mask(c.ss)
-SigSeq == SetToSortSeq({ x \in Sigs : ValidSig(x) }, LAMBDA x, y : SigCode(x) < SigCode(y))
-CallSeq == SetToSortSeq({ x \in Calls : ValidCall(x) }, LAMBDA x, y : CallCode(x) < CallCode(y))
+OfMask(m) == { n \in AllKw : (m \div KwBit(n)) % 2 = 1 }
+KwSets(maxn) == SelectSeq([m \in 1..32 |-> OfMask(m - 1)], LAMBDA ns : Cardinality(ns) <= maxn)
+KwsSeq == KwSets(3)
+SsSeq == <<[hasss |-> FALSE, ss |-> {}]>> \o [i \in 1..Len(KwSets(2)) |-> [hasss |-> TRUE, ss |-> KwSets(2)[i]]]
+CallSeq == [i \in 1..(4 * 4 * Len(KwsSeq) * Len(SsSeq)) |->
+              LET j == i - 1
+                  si == j % Len(SsSeq)              j1 == j \div Len(SsSeq)
+                  ki == j1 % Len(KwsSeq)            j2 == j1 \div Len(KwsSeq)
+              IN [n |-> j2 \div 4, kws |-> KwsSeq[ki + 1], star |-> (j2 % 4) - 1,
+                  hasss |-> SsSeq[si + 1].hasss, ss |-> SsSeq[si + 1].ss]]
+PosShapes == << <<0, 0>>, <<1, 0>>, <<1, 1>>, <<2, 0>>, <<2, 1>>, <<2, 2>> >>       \* <<npos, ndef>>
+KwoSeq == << <<>>,
+             <<[name |-> "k1", d |-> FALSE]>>, <<[name |-> "k1", d |-> TRUE]>>,
+             <<[name |-> "k1", d |-> FALSE], [name |-> "k2", d |-> FALSE]>>,
+             <<[name |-> "k1", d |-> FALSE], [name |-> "k2", d |-> TRUE]>>,
+             <<[name |-> "k1", d |-> TRUE], [name |-> "k2", d |-> FALSE]>>,
+             <<[name |-> "k1", d |-> TRUE], [name |-> "k2", d |-> TRUE]>> >>
+SigSeq == [i \in 1..(6 * 2 * 7 * 2) |->
+              LET j == i - 1
+                  vk == j % 2          j1 == j \div 2
+                  kw == j1 % 7         j2 == j1 \div 7
+                  va == j2 % 2         ps == j2 \div 2
+              IN [npos |-> PosShapes[ps + 1][1], ndef |-> PosShapes[ps + 1][2], va |-> va = 1,
+                  kwo |-> KwoSeq[kw + 1], vk |-> vk = 1]]
+\* the sequences enumerate exactly the valid signatures and calls, each once
+SeqsExact == /\ { SigSeq[i] : i \in DOMAIN SigSeq } = { x \in Sigs : ValidSig(x) }
+             /\ Len(SigSeq) = Cardinality({ x \in Sigs : ValidSig(x) })
+             /\ { CallSeq[i] : i \in DOMAIN CallSeq } = { x \in Calls : ValidCall(x) }
+             /\ Len(CallSeq) = Cardinality({ x \in Calls : ValidCall(x) })
 
 \* ---------------- argument values ----------------
 P(i) == "p" \o ToString(i)       S(i) == "s" \o ToString(i)
